@@ -507,7 +507,10 @@ func (a *Authenticator) ClientHandshake(ctx context.Context) (*SecurityNegotiati
 
 	if serverAddr != "" && a.config.Command >= 0 {
 		cmdStr := fmt.Sprintf("%d", a.config.Command)
-		if entry, ok := cache.LookupByCommand(a.config.SecurityTag, serverAddr, cmdStr); ok {
+		// Only a session that carries a usable key is resumed: the server refuses
+		// any other (see handleSessionResumption), so a cached session without one
+		// (negotiated without a cipher) is passed over and a full handshake runs.
+		if entry, ok := cache.LookupByCommand(a.config.SecurityTag, serverAddr, cmdStr); ok && sessionHasUsableKey(entry) {
 			slog.Info(fmt.Sprintf("🔐 CLIENT: Found cached session %s for %s, attempting to resume...",
 				redactSessionID(entry.ID()), serverAddr), "destination", "cedar")
 
@@ -676,6 +679,17 @@ func (a *Authenticator) handleSessionResumption(ctx context.Context, sessionID s
 			}
 		}
 	}
+	// A session is resumed only if it carries a key this connection can be
+	// protected with from the resumption reply onwards. An entry without one
+	// (a session negotiated without a cipher is stored with no key; an
+	// application-installed entry may carry an empty or non-AES-GCM key) must
+	// not be resumed: naming its id would otherwise hand the requester the
+	// session's identity and authentication status on a plaintext stream.
+	// Treat it exactly like an unknown session.
+	if ok && !sessionHasUsableKey(entry) {
+		slog.Info(fmt.Sprintf("🔐 SERVER: Session %s has no usable key, refusing to resume", redactSessionID(sessionID)), "destination", "cedar")
+		ok = false
+	}
 	if !ok {
 		slog.Info(fmt.Sprintf("🔐 SERVER: Session %s not found or expired", redactSessionID(sessionID)), "destination", "cedar")
 
@@ -791,6 +805,14 @@ func (a *Authenticator) handleSessionResumption(ctx context.Context, sessionID s
 	slog.Info(fmt.Sprintf("🔐 SERVER: Successfully resumed session %s", redactSessionID(sessionID)), "destination", "cedar")
 
 	return negotiation, nil
+}
+
+// sessionHasUsableKey reports whether a cached session carries a key that
+// resumption can install on the stream: an AES-256-GCM key of the size
+// Stream.SetSymmetricKey accepts.
+func sessionHasUsableKey(entry *SessionEntry) bool {
+	ki := entry.KeyInfo()
+	return ki != nil && len(ki.Data) == 32 && isAESGCM(CryptoMethod(ki.Protocol))
 }
 
 // ServerHandshake performs the server-side security handshake
